@@ -234,6 +234,17 @@ def check(model: Model, run: Run) -> None:
                     shrink.append((fi, n))
         run.check(not shrink, cq, '%s only grows (entries are recognised by identity in %s)' % (attr, short(reader.qualname)), shrink[0][0].loc(shrink[0][1]) if shrink else reader.loc(), 'an entry is removed (%s): an object handed out earlier is no longer found in the table, so a decoded End-of-RIB marker that is still held stops being an End-of-RIB' % (norm(shrink[0][1])[:60] if shrink else ''))
 
+    # ------------------------------------------------------------------ R8 the per-attribute cache (shared with C15.R13)
+    run.rule(
+        'C19.R8',
+        'the per-attribute cache of Attribute.unpack, keyed by the value bytes alone, serves no class whose decoder reads the '
+        'session (or is never consulted): otherwise what one session decoded decides what the next one gets for the same bytes',
+        floor=1,
+    )
+    from .C15 import attribute_cache_rule
+
+    attribute_cache_rule(model, run, folder)
+
     # ------------------------------------------------------------------ R3 negotiated read-only
     run.rule('C19.R3', 'no decode-reachable function assigns to an attribute of its `negotiated` parameter', floor=60)
     n_f = 0
